@@ -12,7 +12,7 @@ use std::sync::Mutex;
 use vh::*;
 
 #[derive(Clone, Debug, PartialEq)]
-enum W { Commit, Compact, CloseReopen }
+enum W { Commit, Compact, CloseReopen, Label }
 
 struct Writer { next_tx: u64, nodes: u32, pending: u64 }
 impl Writer {
@@ -32,7 +32,7 @@ impl Writer {
     }
 }
 
-struct Ctx { db: usize, ops: Vec<W>, txs: Vec<Tx>, states: Vec<Vec<String>>, err: Option<String> }
+struct Ctx { db: usize, path: std::path::PathBuf, ops: Vec<W>, txs: Vec<Tx>, states: Vec<Vec<String>>, err: Option<String>, labels: u64 }
 static CTX: Mutex<Option<Ctx>> = Mutex::new(None);
 
 fn filtered(d: Vec<String>) -> Vec<String> { d.into_iter().filter(|l| !l.starts_with("VEC") && !l.starts_with("COUNT")).collect() }
@@ -41,17 +41,31 @@ fn on_point(name: &str) {
     if name != "backup:between_copies" { return; }
     let mut g = CTX.lock().unwrap();
     let Some(ctx) = g.as_mut() else { return };
-    let db: &Db = unsafe { &*(ctx.db as *const Db) };
+    let slot: &mut Option<Db> = unsafe { &mut *(ctx.db as *mut Option<Db>) };
     let mut ti = 0;
     for op in ctx.ops.clone() {
         let r = match op {
-            W::Commit => { let r = apply_tx(db, &ctx.txs[ti]); ti += 1; r }
-            W::Compact => db.compact().map_err(|e| e.to_string()),
-            W::CloseReopen => Ok(()),
+            W::Commit => { let r = apply_tx(slot.as_ref().unwrap(), &ctx.txs[ti]); ti += 1; r }
+            W::Compact => slot.as_ref().unwrap().compact().map_err(|e| e.to_string()),
+            W::Label => { ctx.labels += 1; new_label(slot.as_ref().unwrap(), ctx.labels) }
+            W::CloseReopen => {
+                // close() rewrites the log when nothing is pending; then the writer carries on with a new handle
+                let db = slot.take().unwrap();
+                match db.close() {
+                    Err(e) => Err(e.to_string()),
+                    Ok(()) => match Db::open(&ctx.path) { Ok(d) => { *slot = Some(d); Ok(()) } Err(e) => Err(e.to_string()) },
+                }
+            }
         };
         if let Err(e) = r { ctx.err = Some(e); return; }
-        ctx.states.push(filtered(dump(db)));
+        ctx.states.push(filtered(dump(slot.as_ref().unwrap())));
     }
+}
+
+fn new_label(db: &Db, n: u64) -> Result<(), String> {
+    // get_or_create_label logs the label in its own transaction at call time, whatever happens to the write transaction
+    let mut w = db.begin_write();
+    w.get_or_create_label(&format!("L{n}")).map(|_| ()).map_err(|e| e.to_string())
 }
 
 fn visible_markers(d: &[String]) -> u64 {
@@ -62,7 +76,9 @@ fn visible_markers(d: &[String]) -> u64 {
 
 fn coq_wops(ops: &[(W, bool)]) -> String {
     // (op, effective?) : a compaction with nothing pending does nothing (compact() returns early)
-    let v: Vec<String> = ops.iter().filter_map(|(o, eff)| match o { W::Commit => Some("WCommit".to_string()), W::Compact if *eff => Some("WCompact 0".to_string()), _ => None }).collect();
+    let v: Vec<String> = ops.iter().filter_map(|(o, eff)| match o {
+        W::Commit => Some("WCommit".to_string()), W::Compact if *eff => Some("WCompact 0".to_string()),
+        W::Label => Some("WLabel".to_string()), W::CloseReopen => Some("WClose".to_string()), _ => None }).collect();
     format!("[{}]", v.join("; "))
 }
 
@@ -82,16 +98,19 @@ fn main() {
         (vec![W::Commit, W::Compact], vec![W::Commit, W::Commit], true),
         (vec![W::Commit, W::Commit, W::Compact, W::Commit], vec![], true),
         (vec![W::Commit], vec![W::Compact], true),
+        (vec![W::Commit, W::Label, W::Compact], vec![W::CloseReopen], true),                 // log rewritten between the copies: harmless
+        (vec![W::Commit, W::Compact], vec![W::Label, W::Commit, W::Label], true),             // labels + commits between: harmless
+        (vec![W::Commit, W::Compact], vec![W::Commit, W::Compact, W::CloseReopen], true),     // compaction + rewrite between: known class
     ];
     for idx in 0..a.n {
         let (before, between, keep_open) = if idx < corpus.len() { corpus[idx].clone() } else {
             let nb = 1 + r.below(9);
             let mut before = vec![W::Commit];
-            for _ in 0..nb { before.push(match r.below(10) { 0..=5 => W::Commit, 6..=8 => W::Compact, _ => W::CloseReopen }); }
+            for _ in 0..nb { before.push(match r.below(12) { 0..=5 => W::Commit, 6..=8 => W::Compact, 9 => W::CloseReopen, _ => W::Label }); }
             let between: Vec<W> = match r.below(4) {
                 0 | 1 => vec![],                                                      // quiescent
-                2 => (0..1 + r.below(3)).map(|_| W::Commit).collect(),                // commits only
-                _ => (0..1 + r.below(4)).map(|_| if r.chance(1, 2) { W::Commit } else { W::Compact }).collect(),
+                2 => (0..1 + r.below(4)).map(|_| match r.below(6) { 0..=2 => W::Commit, 3 | 4 => W::Label, _ => W::CloseReopen }).collect(), // no compaction
+                _ => (0..1 + r.below(4)).map(|_| match r.below(8) { 0..=2 => W::Commit, 3..=5 => W::Compact, 6 => W::Label, _ => W::CloseReopen }).collect(),
             };
             let keep_open = !between.is_empty() || r.chance(1, 2);
             (before, between, keep_open)
@@ -100,6 +119,7 @@ fn main() {
         let src = dir.join("src");
         std::fs::create_dir_all(&src).unwrap();
         let mut w = Writer { next_tx: 1, nodes: 0, pending: 0 };
+        let mut labels = 0u64;
         let mut before_eff: Vec<(W, bool)> = vec![];
         let mut between_eff: Vec<(W, bool)> = vec![];
         let res = guarded(|| -> Result<(Vec<String>, Vec<Vec<String>>, Result<Vec<String>, String>, bool), String> {
@@ -108,7 +128,8 @@ fn main() {
                 match op {
                     W::Commit => { let tx = w.marker_tx(&mut r); apply_tx(&db, &tx)?; w.pending += 1; before_eff.push((W::Commit, true)); }
                     W::Compact => { db.compact().map_err(|e| e.to_string())?; before_eff.push((W::Compact, w.pending > 0)); w.pending = 0; }
-                    W::CloseReopen => { db.close().map_err(|e| e.to_string())?; db = Db::open(base_path(&src)).map_err(|e| e.to_string())?; before_eff.push((W::CloseReopen, false)); }
+                    W::CloseReopen => { db.close().map_err(|e| e.to_string())?; db = Db::open(base_path(&src)).map_err(|e| e.to_string())?; before_eff.push((W::CloseReopen, true)); }
+                    W::Label => { labels += 1; new_label(&db, labels)?; before_eff.push((W::Label, true)); }
                 }
             }
             let d_pre = filtered(dump(&db));
@@ -117,15 +138,16 @@ fn main() {
                 match op {
                     W::Commit => { txs.push(w.marker_tx(&mut r)); w.pending += 1; between_eff.push((W::Commit, true)); }
                     W::Compact => { between_eff.push((W::Compact, w.pending > 0)); w.pending = 0; }
-                    W::CloseReopen => {}
+                    W::CloseReopen => { between_eff.push((W::CloseReopen, true)); }
+                    W::Label => { between_eff.push((W::Label, true)); }
                 }
             }
             let manifest_between = between_eff.iter().any(|(o, e)| *o == W::Compact && *e);
             let backups = dir.join("backups");
             std::fs::create_dir_all(&backups).unwrap();
-            let db_opt = if keep_open { Some(db) } else { db.close().map_err(|e| e.to_string())?; None };
-            if let Some(dbr) = &db_opt {
-                *CTX.lock().unwrap() = Some(Ctx { db: dbr as *const Db as usize, ops: between.clone(), txs, states: vec![], err: None });
+            let mut db_opt = if keep_open { Some(db) } else { db.close().map_err(|e| e.to_string())?; None };
+            if db_opt.is_some() {
+                *CTX.lock().unwrap() = Some(Ctx { db: &mut db_opt as *mut Option<Db> as usize, path: base_path(&src), ops: between.clone(), txs, states: vec![], err: None, labels: 1000 });
             }
             let info = nervusdb::backup(base_path(&src), &backups).map_err(|e| format!("backup: {e}"));
             let ctx = CTX.lock().unwrap().take();
@@ -142,7 +164,7 @@ fn main() {
             let restored = guarded(|| Db::open(base_path(&dst)).map(|d| filtered(dump(&d))).map_err(|e| e.to_string())).unwrap_or_else(|p| Err(format!("panic: {p}")));
             Ok((d_pre, states, restored, manifest_between))
         });
-        *hist.entry(format!("kind:{}", if between.is_empty() { if keep_open { "quiescent-open" } else { "quiescent-closed" } } else if between.iter().all(|o| *o == W::Commit) { "between:commits" } else { "between:with-compaction" })).or_insert(0) += 1;
+        *hist.entry(format!("kind:{}", if between.is_empty() { if keep_open { "quiescent-open" } else { "quiescent-closed" } } else if between.iter().all(|o| *o != W::Compact) { "between:no-compaction" } else { "between:with-compaction" })).or_insert(0) += 1;
         let input = json!({"before": format!("{:?}", before), "between": format!("{:?}", between), "source_open": keep_open});
         match res {
             Err(p) | Ok(Err(p)) => {
@@ -162,7 +184,7 @@ fn main() {
                         rep.fail(idx, class, &format!("restored backup does not open: {e}"), input);
                     }
                     Ok(d) => {
-                        let m = states.iter().position(|s| s == d);
+                        let m = states.iter().rposition(|s| s == d);
                         *hist.entry(format!("restored:equals-moment:{}", m.map_or("none".to_string(), |i| if i == 0 { "start".into() } else if i + 1 == states.len() { "end".into() } else { "middle".into() }))).or_insert(0) += 1;
                         if m.is_none() {
                             let diff = first_diff(&states[states.len() - 1], d).unwrap_or_default();
@@ -181,7 +203,7 @@ fn main() {
         "evaluations": a.n,
         "corr_cases": cw.total,
         "distinct_nontrivial": distinct.len(),
-        "rule": "2-10 writer ops (commit of a marker transaction with edges/properties/large values, compaction, close+reopen) before the backup; 50% quiescent (source open-idle or closed), 25% commits between the two copies, 25% commits and compactions between; distinct by the effective op sequences",
+        "rule": "2-10 writer ops (commit of a marker transaction with edges/properties/large values, compaction, label creation, close+reopen) before the backup; 50% quiescent (source open-idle or closed), 25% commits / label creations / close+reopen (log rewrite) between the two copies, 25% also compactions between; distinct by the effective op sequences",
         "histogram": hist,
         "case_files": cw.files.iter().map(|p| p.to_string_lossy().to_string()).collect::<Vec<_>>(),
     }));
